@@ -9,7 +9,7 @@ import re
 import shutil
 import subprocess
 import unicodedata
-from contextlib import contextmanager
+from contextlib import contextmanager, suppress
 from pathlib import Path
 from tempfile import TemporaryDirectory
 from typing import TYPE_CHECKING
@@ -116,6 +116,29 @@ def get_repo_root(repo: str | Path) -> str:
     return output.decode().strip()
 
 
+def _forget_worktree(repo: str, location: str) -> None:
+    # Remove what the repository still knows about the worktree at this location, if anything:
+    # `git worktree remove` cannot do it once the checkout was deleted or damaged. `git worktree prune`
+    # could, but it prunes every stale entry of the repository, the user's own ones included.
+    process = subprocess.run(
+        ["git", "-C", repo, "rev-parse", "--git-common-dir"],
+        capture_output=True,
+        text=True,
+        check=False,
+        env=_git_env(),
+    )
+    if process.returncode:
+        return
+    worktrees_dir = Path(repo, process.stdout.strip(), "worktrees")
+    gitlink = os.path.join(os.path.realpath(location), ".git")  # noqa: PTH118
+    for gitdir_file in worktrees_dir.glob("*/gitdir"):
+        with suppress(OSError):
+            if os.path.realpath(gitdir_file.read_text(encoding="utf8").strip()) == gitlink:
+                shutil.rmtree(gitdir_file.parent, ignore_errors=True)
+    with suppress(OSError):
+        worktrees_dir.rmdir()  # Git does not keep it when it is empty.
+
+
 @contextmanager
 def tmp_worktree(repo: str | Path = ".", ref: str = "HEAD") -> Iterator[Path]:
     """Context manager that checks out the given reference in the given repository to a temporary worktree.
@@ -153,7 +176,6 @@ def tmp_worktree(repo: str | Path = ".", ref: str = "HEAD") -> Iterator[Path]:
             # directory itself for references like `@`, whose normalized name is empty).
             if branch_existed:
                 return
-            # Nothing to clean up either if the worktree was not created, for example when the reference is unknown.
             if os.path.exists(location):
                 # Force removal: loading can leave untracked files in the worktree (bytecode caches for example).
                 # Force it twice: Git keeps a worktree locked while populating it, and the lock stays
@@ -164,28 +186,18 @@ def tmp_worktree(repo: str | Path = ".", ref: str = "HEAD") -> Iterator[Path]:
                     check=False,
                     env=_git_env(),
                 )
-                subprocess.run(
-                    ["git", "-C", repo, "worktree", "prune"],
-                    stdout=subprocess.DEVNULL,
-                    check=False,
-                    env=_git_env(),
-                )
-                subprocess.run(
-                    ["git", "-C", repo, "branch", "-D", tmp_branch],
-                    stdout=subprocess.DEVNULL,
-                    check=False,
-                    env=_git_env(),
-                )
-            else:
-                # Git creates the branch first, and itself removes a worktree it could not populate
-                # (a failing smudge filter for example): the branch is then left behind.
-                subprocess.run(
-                    ["git", "-C", repo, "branch", "-D", tmp_branch],
-                    stdout=subprocess.DEVNULL,
-                    stderr=subprocess.DEVNULL,
-                    check=False,
-                    env=_git_env(),
-                )
+            # Git could not remove the worktree if the checkout was damaged or deleted while we used it,
+            # and it creates the branch first and itself removes a worktree it could not populate
+            # (a failing smudge filter for example), leaving the branch: in any case,
+            # forget the worktree and delete the branch (when there is nothing to do, these do nothing).
+            _forget_worktree(repo, location)
+            subprocess.run(
+                ["git", "-C", repo, "branch", "-D", tmp_branch],
+                stdout=subprocess.DEVNULL,
+                stderr=subprocess.DEVNULL,
+                check=False,
+                env=_git_env(),
+            )
 
         try:
             process = subprocess.run(
